@@ -38,7 +38,7 @@ def check(run, repo, tier):
   r3_lookup_one(run, w)
   r4_no_captured_columns(run, w)
   from ._extra import c13_reset_all_keys, c14_sortkey_total_order
-  c13_reset_all_keys(run, w, "C13-R2")
+  run.guard(c13_reset_all_keys, run, w, "C13-R2")
   c14_sortkey_total_order(run, w, "C13-R5")
 
 
